@@ -108,12 +108,20 @@ class BodyPairs(Family):
             for (M, s) in spec['maps']:
                 for t in spec['window']:
                     out.append(X.xform(K2, M, s, t))
+        elif kind == 'reorient48':
+            # BOTH bodies are mapped by the same signed axis permutation, K2 additionally shifted (pairs of images, see scenes())
+            for (M, s) in spec['maps']:
+                for t in spec['window']:
+                    out.append((X.xform(K1, M, s), X.xform(K2, M, s, X.mat_apply(M, t))))
         return out
 
     def scenes(self, shard):
         b1, b2, i0, i1 = shard
         K1 = self.pose(A.body(b1))
         for img in self.placements(b1, b2)[i0:i1]:
+            if self.kind == 'reorient48':
+                yield (self.pose(img[0]), self.pose(img[1]))
+                continue
             yield (K1, self.pose(img))
 
     def eval(self, scene):
@@ -237,6 +245,11 @@ def families(tier):
     for pose in ((A.P0,) if tier == 'quick' else (A.P0, A.P1)):
         fl = BodyPairs('flush', pose, [('para-A', 'para-B'), ('para-B', 'para-A')], {'steps': steps, 'u': (1, 0, 0), 'v': (0, 4, -3)})
         fams.append(fl)
+    # generic crossings (rotated slabs with coplanar overlapping faces, parallelograms whose planes meet in a line perpendicular
+    # to an axis) under all 48 signed axis permutations
+    gx = [('slab-A', 'slab-B'), ('slab-B', 'slab-A'), ('pgm-A', 'pgm-B'), ('pgm-B', 'pgm-A'), ('slab-A', 'pgm-B'), ('pgm-A', 'slab-B')]
+    shifts = [(0, 0, 0)] if tier == 'quick' else [(0, 0, 0), (F(1, 2), 0, 0), (0, F(-1, 4), F(1, 2))]
+    fams.append(BodyPairs('reorient48', A.P0, gx, {'maps': [(M, 1) for M in A.G48], 'window': shifts}))
     mb = A.QUICK_BODIES if tier == 'quick' else A.QUICK_BODIES + ['square', 'pyramid', 'prism']
     mv = MovedPairs('translate', A.P1, [(x, y) for x in mb for y in mb], {'window': window(-1, 1, 1)[::3] if tier == 'quick' else window(-1, 1, 1)})
     mv.name = 'moved/P1'
